@@ -88,6 +88,11 @@ func c06Sources() []srcHello {
 				}
 			}
 		}
+		for _, h := range c34Corpus() {
+			if strings.Contains(h.name, "+ech-65-byte-key") {
+				c06Src = append(c06Src, srcHello{h.name, h.msg, h.sni})
+			}
+		}
 		// hellos carrying quic_transport_parameters (a type the library knows but cannot decode:
 		// representable only with blunt mimicry, which must then keep the body)
 		for i, mk := range []func() tls.TLSExtension{
